@@ -134,9 +134,9 @@ Section RoundTrip.
     (* a lambda is weaker than a call, hence parenthesised as operand, bound, argument and callee; it is parenthesised
        as case branch and as lambda body; calls, lambdas and aliased expressions are parenthesised as default values *)
     H_func_pos : (0 < bs_func F)%N;
-    H_func_call : (bs_func F < bs_call F)%N;
-    H_func_case : (bs_func F < case_ctx F)%N;
-    H_func_body : (bs_func F < body_ctx F)%N;
+    H_func_call : (bs_func F <= bs_call F)%N;
+    H_func_case : (bs_func F <= case_ctx F)%N;
+    H_func_body : (bs_func F <= body_ctx F)%N;
     H_call_default : (bs_call F <= default_ctx F)%N;
     H_alias_default : (alias_ctx F < default_ctx F)%N;
   }.
@@ -278,12 +278,17 @@ Section RoundTrip.
 
   Definition is_func (e : expr) : bool := match e with EFunc _ _ _ => true | _ => false end.
 
-  (* a lambda is parenthesised wherever a call would be *)
-  Lemma func_wrapped ctx pos unb e : (bs_call F <= ctx)%N -> is_func e = true -> needs F (ctx, pos, unb) e = true.
+  (* a lambda is parenthesised at every context strength that is not below its own (needs_parenthesis: at equal
+     strength only a matching associativity saves the parentheses, and a lambda has none) *)
+  Lemma func_needs ctx pos unb e : (bs_func F <= ctx)%N -> is_func e = true -> needs F (ctx, pos, unb) e = true.
   Proof.
-    intros Hle Hf. destruct e; try discriminate Hf. unfold needs. cbn [strength].
-    pose proof (H_func_call C). destruct (N.ltb_spec (bs_func F) ctx); [rewrite orb_true_r; reflexivity | lia].
+    intros Hle Hf. destruct e; try discriminate Hf. unfold needs. cbn [strength assoc can_bind_left].
+    destruct (N.ltb_spec (bs_func F) ctx); [rewrite orb_true_r; reflexivity|].
+    assert (bs_func F = ctx) as -> by lia. rewrite N.eqb_refl. destruct pos; rewrite orb_true_r; reflexivity.
   Qed.
+  (* ... in particular wherever a call would be *)
+  Lemma func_wrapped ctx pos unb e : (bs_call F <= ctx)%N -> is_func e = true -> needs F (ctx, pos, unb) e = true.
+  Proof. intros Hle Hf. apply func_needs; [pose proof (H_func_call C); lia | exact Hf]. Qed.
 
   (* the first token of the start of a range, given the first token of the start expression itself *)
   Lemma range_head l ctx unb (dummy : expr) :
@@ -699,7 +704,7 @@ Section RoundTrip.
     - apply needs_eq_unspec; [reflexivity | apply (H_rng_un C)].
     - apply needs_eq_unspec; [reflexivity | apply (H_rng_un C)].
     - apply needs_call. apply (H_call_un C).
-    - apply needs_lt. cbn [strength]. pose proof (H_func_call C). pose proof (H_call_un C). lia.
+    - apply func_needs; [pose proof (H_func_call C); pose proof (H_call_un C); lia | reflexivity].
   Qed.
 
   (* bound of a range (written at position Unspecified): in parentheses unless it is a term or a unary operator *)
@@ -717,7 +722,7 @@ Section RoundTrip.
     - apply needs_eq_unspec; [reflexivity | apply N.le_refl].
     - apply needs_eq_unspec; [reflexivity | apply N.le_refl].
     - apply needs_call. apply (H_call_rng C).
-    - apply needs_lt. cbn [strength]. pose proof (H_func_call C). pose proof (H_call_rng C). lia.
+    - apply func_needs; [pose proof (H_func_call C); pose proof (H_call_rng C); lia | reflexivity].
   Qed.
 
   Lemma call_wrapped c ctx pos unb : (bs_call F <= ctx)%N -> wrapped (ctx, pos, unb) c = false -> is_low c = false.
@@ -835,7 +840,7 @@ Section RoundTrip.
 
   (* a lambda as a case branch is in parentheses *)
   Lemma func_case c pos : is_func c = true -> needs F (case_ctx F, pos, false) c = true.
-  Proof. intro Hf. destruct c; try discriminate Hf. apply needs_lt. cbn [strength]. apply (H_func_case C). Qed.
+  Proof. intro Hf. apply func_needs; [apply (H_func_case C) | exact Hf]. Qed.
 
   (* case [c1 => v1, c2 => v2, ...] : the flattened list has even length *)
   Lemma items_case pos rest :
@@ -1228,7 +1233,7 @@ Section RoundTrip.
       destruct (Gb (cb, PUnspec, unb) (okst_plain b _ Hpb)) as [_ [_ [_ Gbc]]].
       destruct (Gbc (plain_not_alias b Hpb) rest Hcl) as [g3 Hg3].
       rewrite (lc_call b (cb, PUnspec, unb) rest (par T g3) (plain_operand b Hpb) ltac:(assumption) ltac:(assumption) (okst_plain b _ Hpb)) in Hg3.
-      2: { intro Hf. destruct b; try discriminate Hf. apply needs_lt. cbn [strength]. pose proof (H_func_body C). unfold cb. lia. }
+      2: { intro Hf. apply func_needs; [pose proof (H_func_body C); unfold cb; lia | exact Hf]. }
       (* the header *)
       destruct (defaults_parse cd unb (fmt F b (cb, PUnspec, unb) ++ rest)
                   ltac:(pose proof (H_call_default C); unfold cd; lia) ltac:(pose proof (H_alias_default C); unfold cd; lia)
@@ -1563,9 +1568,9 @@ Proof.
   - apply N.ltb_lt; exact Can.
   - apply N.leb_le; exact Cac.
   - apply N.ltb_lt; exact Cfp.
-  - apply N.ltb_lt; exact Cfc.
-  - apply N.ltb_lt; exact Cfs.
-  - apply N.ltb_lt; exact Cfb.
+  - apply N.leb_le; exact Cfc.
+  - apply N.leb_le; exact Cfs.
+  - apply N.leb_le; exact Cfb.
   - apply N.leb_le; exact Ccd.
   - apply N.ltb_lt; exact Cad.
 Qed.
